@@ -37,6 +37,7 @@ import (
 	"time"
 
 	"github.com/golang-jwt/jwt/v4"
+	"github.com/gotid/god/api/chain"
 	"github.com/gotid/god/api/handler"
 	"github.com/gotid/god/api/token"
 	"github.com/gotid/god/lib/logx"
@@ -834,7 +835,43 @@ func c04NewServer(opts ...Option) (*Server, error) {
 	c.Host = "127.0.0.1"
 	c.Log.Mode = "console"
 	c.Mode = "dev"
-	return NewServer(c, opts...)
+	switch c04ChainFlavor {
+	case "withchain": // the application replaces the default chain by its own
+		opts = append([]Option{WithChain(chain.New(func(next http.Handler) http.Handler {
+			return http.HandlerFunc(func(w http.ResponseWriter, r *http.Request) {
+				atomic.AddInt64(&c04ChainMWCalls, 1)
+				next.ServeHTTP(w, r)
+			})
+		}))}, opts...)
+	case "withchain-empty":
+		opts = append([]Option{WithChain(chain.New())}, opts...)
+	}
+	srv, err := NewServer(c, opts...)
+	if err == nil && c04ChainFlavor != "" {
+		srv.Use(func(next http.HandlerFunc) http.HandlerFunc {
+			return func(w http.ResponseWriter, r *http.Request) {
+				atomic.AddInt64(&c04UseMWCalls, 1)
+				next(w, r)
+			}
+		})
+	}
+	return srv, err
+}
+
+// c04ChainFlavor selects how the engine-layer servers are built: "" = default chain,
+// "withchain" = api.WithChain(custom chain) + Server.Use(middleware), "withchain-empty" =
+// api.WithChain(chain.New()) + Use. Tests run sequentially; whoever sets it resets it.
+var (
+	c04ChainFlavor  string
+	c04ChainMWCalls int64
+	c04UseMWCalls   int64
+)
+
+func c04EngineLayerName() string {
+	if c04ChainFlavor == "" {
+		return "engine"
+	}
+	return "engine-" + c04ChainFlavor
 }
 
 func c04EngineGate(secret, prev string) (*c04JwtGate, error) {
@@ -875,7 +912,7 @@ func c04EngineGate(secret, prev string) (*c04JwtGate, error) {
 	ts := httptest.NewServer(srv.router)
 	client := ts.Client()
 	n := 0
-	return &c04JwtGate{layer: "engine", wantCallback: true, secret: secret, prev: prev, obs: obs,
+	return &c04JwtGate{layer: c04EngineLayerName(), wantCallback: true, secret: secret, prev: prev, obs: obs,
 		close: func() { ts.Close() },
 		do: func(auth string, hasHdr bool) (int, error) {
 			n++
@@ -945,7 +982,7 @@ func c04RunJwtSequence(m *vk.M, idx int, g *c04JwtGate, classes []string, r *ran
 			return false
 		}
 		ran, req, _, cb := g.obs.snapshot()
-		if g.layer == "engine" {
+		if strings.HasPrefix(g.layer, "engine") {
 			g.obs.mu.Lock()
 			mw := g.obs.mw
 			g.obs.mu.Unlock()
@@ -958,7 +995,7 @@ func c04RunJwtSequence(m *vk.M, idx int, g *c04JwtGate, classes []string, r *ran
 		sig := "C04:jwt:" + g.layer + ":"
 		m.Count("jwt."+g.layer+".requests", 1)
 		m.Count("jwt.class."+c.Class, 1)
-		if g.layer == "engine" && status == http.StatusServiceUnavailable {
+		if strings.HasPrefix(g.layer, "engine") && status == http.StatusServiceUnavailable {
 			m.Inconclusive("engine answered 503 (breaker/shedder) at %s", desc(step, c))
 			return false
 		}
@@ -1296,4 +1333,20 @@ func TestVerifC04JwtTimeHistories(t *testing.T) {
 	t.Run("handler", func(t *testing.T) { c04JwtTimeHistories(t, "handler", n) })
 	t.Run("parser", func(t *testing.T) { c04JwtTimeHistories(t, "parser", n) })
 	t.Run("engine", func(t *testing.T) { c04JwtTimeHistories(t, "engine", n) })
+}
+
+// TestVerifC04EngineCustomChain: option interaction — servers built with api.WithChain
+// (custom or empty chain) plus Server.Use middlewares must still put every gate
+// (WithJwt, WithJwtTransition, WithSignature, both) in front of the handler.
+func TestVerifC04EngineCustomChain(t *testing.T) {
+	defer func() { c04ChainFlavor = "" }()
+	for _, fl := range []string{"withchain", "withchain-empty"} {
+		fl := fl
+		c04ChainFlavor = fl
+		t.Run(fl+"/jwt", func(t *testing.T) { c04JwtLayer(t, "engine-"+fl, vk.N(4, 80), 50, 200) })
+		t.Run(fl+"/signature", func(t *testing.T) { c04SigLayer(t, "engine-"+fl, vk.N(400, 8000)) })
+		t.Run(fl+"/both", func(t *testing.T) { c04EngineBoth(t) })
+		t.Run(fl+"/time", func(t *testing.T) { c04JwtTimeHistories(t, "engine-"+fl, vk.N(3, 60)) })
+	}
+	t.Logf("custom chain middleware calls %d, Use middleware calls %d", atomic.LoadInt64(&c04ChainMWCalls), atomic.LoadInt64(&c04UseMWCalls))
 }
